@@ -5,6 +5,7 @@ import (
 	"net"
 	"regexp"
 	"strconv"
+	"sync"
 
 	"github.com/refraction-networking/conjure/pkg/station/geoip"
 	"github.com/refraction-networking/conjure/pkg/station/liveness"
@@ -46,6 +47,10 @@ type RegConfig struct {
 	// Local list of disallowed subnets patterns for phantom addresses.
 	PhantomBlocklist []string `toml:"phantom_blocklist"`
 	phantomBlocklist []*net.IPNet
+
+	// listMu guards the block- and allowlist fields above, which RegistrationManager.OnReload
+	// replaces while ingest workers and connection handlers evaluate them.
+	listMu sync.RWMutex
 
 	// ConnectingStats records stats related to connecting transports
 	ConnectingStats ConnectingTpStats
@@ -184,6 +189,9 @@ func (c *RegConfig) ParseOrResolveBlocklisted(provided string) (string, bool) {
 // isBlocklistedCovertAddr checks if the provided host string should be
 // blocked by on of the blocklisted subnets.
 func (c *RegConfig) isBlocklistedCovertAddr(addr net.IP) bool {
+	c.listMu.RLock()
+	defer c.listMu.RUnlock()
+
 	if c.enableCovertAllowlist {
 		// If allowlist check is enabled it takes precedence over blocklist.
 		for _, net := range c.covertAllowlistSubnets {
@@ -208,6 +216,9 @@ func (c *RegConfig) isBlocklistedCovertAddr(addr net.IP) bool {
 // isBlocklistedCovertDomain checks if the provided host string should be
 // blocked by on of the blocklisted Domain patterns.
 func (c *RegConfig) isBlocklistedCovertDomain(provided string) bool {
+	c.listMu.RLock()
+	defer c.listMu.RUnlock()
+
 	for _, pattern := range c.covertBlocklistDomains {
 		if pattern.MatchString(provided) {
 			return true
@@ -220,6 +231,9 @@ func (c *RegConfig) isBlocklistedCovertDomain(provided string) bool {
 // IsBlocklistedPhantom checks if the provided address should be
 // denied by on of the blocklisted Phantom subnets.
 func (c *RegConfig) IsBlocklistedPhantom(addr net.IP) bool {
+	c.listMu.RLock()
+	defer c.listMu.RUnlock()
+
 	for _, net := range c.phantomBlocklist {
 		if net.Contains(addr) {
 			// blocked by IP address
